@@ -16,28 +16,35 @@ Lemma tool_filter : c_filter_listed tool = true.
 Proof. exact (proj1 (proj2 (cfg_ok_inv tool tool_ok))). Qed.
 Lemma tool_reseed : c_reseed_each tool = true.
 Proof. exact (proj1 (proj2 (proj2 (proj2 (proj2 (cfg_ok_inv tool tool_ok)))))). Qed.
+(* manifest lines are matched verbatim (only the terminator is removed), so
+   every id - also one that ends in a tab or another non-" " whitespace - is
+   recognised: no hypothesis on the ids is needed *)
+Lemma tool_stable : forall es, ids_stable tool es.
+Proof. intros es. exact I. Qed.
+Lemma tool_listed : forall m, listed_ids tool m = m.
+Proof. reflexivity. Qed.
 Lemma tool_norm : c_norm tool <> NoStrip.
 Proof. exact (proj2 (proj2 (proj2 (proj2 (proj2 (cfg_ok_inv tool tool_ok)))))). Qed.
 
 Lemma manifest_only_complete_l : forall seed es d u,
-  NoDup (map fst es) -> ids_stable tool es -> reach tool seed es d -> In u (d_manifest d) ->
+  NoDup (map fst es) -> reach tool seed es d -> In u (d_manifest d) ->
   exists f, good_of seed es u = Some f /\ file_at (d_files d) u = Some (Complete f).
 Proof.
-  intros seed es d u ND ST R I.
+  intros seed es d u ND R I. pose proof (tool_stable es) as ST.
   destruct (reach_inv tool seed es tool_ok ND ST d R) as [_ [I1 _]]. apply I1. exact I.
 Qed.
 
 Lemma files_partial_or_right_l : forall seed es d u st,
-  NoDup (map fst es) -> ids_stable tool es -> reach tool seed es d -> file_at (d_files d) u = Some st ->
+  NoDup (map fst es) -> reach tool seed es d -> file_at (d_files d) u = Some st ->
   exists f, good_of seed es u = Some f /\ (st = Partial \/ st = Complete f).
 Proof.
-  intros seed es d u st ND ST R I.
+  intros seed es d u st ND R I. pose proof (tool_stable es) as ST.
   destruct (reach_inv tool seed es tool_ok ND ST d R) as [_ [_ I2]]. apply (I2 u st). exact I.
 Qed.
 
 Lemma manifest_no_duplicates_l : forall seed es d,
-  NoDup (map fst es) -> ids_stable tool es -> reach tool seed es d -> NoDup (d_manifest d).
-Proof. intros seed es d ND ST R. exact (proj1 (reach_inv tool seed es tool_ok ND ST d R)). Qed.
+  NoDup (map fst es) -> reach tool seed es d -> NoDup (d_manifest d).
+Proof. intros seed es d ND R. exact (proj1 (reach_inv tool seed es tool_ok ND (tool_stable es) d R)). Qed.
 
 Lemma manifest_complete_but_in_flight_l : forall seed es wk d sched n k u,
   valid_sched tool seed es wk d sched ->
@@ -50,33 +57,33 @@ Lemma manifest_never_shrinks_l : forall d sched n k,
 Proof. intros. apply manifest_kept_l. exact tool_append. Qed.
 
 Lemma resumed_run_final_files_l : forall seed es wk d sched n k u,
-  NoDup (map fst es) -> ids_stable tool es -> reach tool seed es d ->
+  NoDup (map fst es) -> reach tool seed es d ->
   valid_sched tool seed es wk d sched -> (length sched <= n)%nat ->
   file_at (d_files (crash tool d sched n k)) u = option_map Complete (good_of seed es u).
 Proof.
-  intros seed es wk d sched n k u ND ST R V L.
+  intros seed es wk d sched n k u ND R V L. pose proof (tool_stable es) as ST.
   apply (final_files_l tool seed es tool_ok ND ST wk d sched n k u); auto.
   apply (reach_inv tool seed es tool_ok ND ST d R).
 Qed.
 
 Lemma resume_identical_to_uninterrupted_l : forall seed es d wk sched n k wk' sched' n' k',
-  NoDup (map fst es) -> ids_stable tool es -> reach tool seed es d ->
+  NoDup (map fst es) -> reach tool seed es d ->
   valid_sched tool seed es wk d sched -> (length sched <= n)%nat ->
   valid_sched tool seed es wk' disk0 sched' -> (length sched' <= n')%nat ->
   same_dir (crash tool d sched n k) (crash tool disk0 sched' n' k').
 Proof.
-  intros seed es d wk sched n k wk' sched' n' k' ND ST R V L V' L' u.
-  rewrite (resumed_run_final_files_l seed es wk d sched n k u ND ST R V L).
-  rewrite (resumed_run_final_files_l seed es wk' disk0 sched' n' k' u ND ST (reach0 _ _ _) V' L').
+  intros seed es d wk sched n k wk' sched' n' k' ND R V L V' L' u.
+  rewrite (resumed_run_final_files_l seed es wk d sched n k u ND R V L).
+  rewrite (resumed_run_final_files_l seed es wk' disk0 sched' n' k' u ND (reach0 _ _ _) V' L').
   reflexivity.
 Qed.
 
 Lemma resumed_run_final_manifest_l : forall seed es wk d sched n k u,
-  NoDup (map fst es) -> ids_stable tool es -> reach tool seed es d ->
+  NoDup (map fst es) -> reach tool seed es d ->
   valid_sched tool seed es wk d sched -> (length sched <= n)%nat ->
   (In u (d_manifest (crash tool d sched n k)) <-> In u (map fst es)).
 Proof.
-  intros seed es wk d sched n k u ND ST R V L.
+  intros seed es wk d sched n k u ND R V L. pose proof (tool_stable es) as ST.
   apply (final_manifest_l tool seed es tool_ok ST wk d sched n k u); auto.
   apply (reach_inv tool seed es tool_ok ND ST d R).
 Qed.
@@ -84,24 +91,40 @@ Qed.
 (* reachable states have the manifest equal to a prefix of the map order and at
    most one file that is not listed *)
 Lemma manifest_is_map_prefix_tl : forall seed es d,
-  NoDup (map fst es) -> ids_stable tool es -> reach tool seed es d ->
+  NoDup (map fst es) -> reach tool seed es d ->
   exists j, d_manifest d = firstn j (map fst es).
-Proof. intros seed es d ND ST R. apply (manifest_is_map_prefix_l tool seed es tool_ok ND ST d R). Qed.
+Proof. intros seed es d ND R. apply (manifest_is_map_prefix_l tool seed es tool_ok ND (tool_stable es) d R). Qed.
 
 Lemma at_most_one_unlisted_tl : forall seed es d u v,
-  NoDup (map fst es) -> ids_stable tool es -> reach tool seed es d ->
+  NoDup (map fst es) -> reach tool seed es d ->
   file_at (d_files d) u <> None -> file_at (d_files d) v <> None ->
   ~ In u (d_manifest d) -> ~ In v (d_manifest d) -> u = v.
-Proof. intros seed es d u v ND ST R. apply (at_most_one_unlisted_l tool seed es tool_ok ND ST d u v R). Qed.
+Proof. intros seed es d u v ND R. apply (at_most_one_unlisted_l tool seed es tool_ok ND (tool_stable es) d u v R). Qed.
 
 Lemma listed_not_recomputed_nor_rewritten_l : forall seed es wk d sched n u,
-  valid_sched tool seed es wk d sched -> In u (d_manifest d) -> 0 <= u ->
+  valid_sched tool seed es wk d sched -> In u (d_manifest d) ->
   ~ In u (s_computed (crash_state tool d sched n)) /\
   ~ In u (s_saved (crash_state tool d sched n)) /\
   file_at (d_files (s_disk (crash_state tool d sched n))) u = file_at (d_files d) u.
 Proof.
-  intros. apply (listed_untouched_l tool seed es wk); auto using tool_filter, tool_append.
-  apply listed_ids_in_nonneg; auto using tool_norm.
+  intros seed es wk d sched n u V L.
+  apply (listed_untouched_l tool seed es wk); [exact tool_filter | exact tool_append | exact V |].
+  rewrite tool_listed. exact L.
+Qed.
+
+Lemma manifest_exact_tl : forall seed es wk d sched n k,
+  valid_sched tool seed es wk d sched ->
+  exists l, d_manifest (crash tool d sched n k) = d_manifest d ++ l /\
+            (l = completed (firstn n sched) \/ l = removelast (completed (firstn n sched))).
+Proof. intros seed es wk d sched n k. apply (manifest_exact_l tool seed es tool_ok). Qed.
+
+Lemma rerun_noop_tl : forall seed es wk d sched n k,
+  valid_sched tool seed es wk d sched ->
+  (forall u, In u (map fst es) -> In u (d_manifest d)) ->
+  crash tool d sched n k = d.
+Proof.
+  intros seed es wk d sched n k V H. apply (rerun_noop_l tool seed es tool_ok wk d sched n k V).
+  intros u I. rewrite tool_listed. apply H. exact I.
 Qed.
 
 Lemma workers_irrelevant_l : forall seed es wk1 wk2 d,
